@@ -158,7 +158,7 @@ Module C05Demo.
   Definition st (s : stmt_inner) := St s m0.
   Definition pid (x : N) (t : ty) := Pat (PId x) m0 t.
   Definition id (x : N) (t : ty) := ex (EId x) t.
-  Definition n8 (k : N) := ex (ENumU k) u8.
+  Definition n8 (k : N) := ex (ENumU k 8) u8.
   Definition tS := TStruct 1.
   Definition tE := TEnum 3.
   Definition tT := TTup [u8; TArr u8 2].
@@ -174,14 +174,14 @@ Module C05Demo.
                   [st (SAssign 10 [] (ex (EOp OAdd (id 10 u8) (ex (ECall 8 [id 11 u8]) u8)) u8))]);
             st (SLet (pid 12 tS) (ex (EStructLit 1 [(2, ex ETrue TBool); (0, id 10 u8)]) tS));
             st (SLetMut 13 (ex (ETupLit [ex (EFld (id 12 tS) 0) u8; ex (EArrLit [n8 1; n8 2]) (TArr u8 2)]) tT));
-            st (SAssign 13 [ATup tT 1; AIdx (TArr u8 2) (ex (ENumU 0) usz)] (n8 3));
+            st (SAssign 13 [ATup tT 1; AIdx (TArr u8 2) (ex (ENumU 0 8) usz)] (n8 3));
             st (SLet (pid 14 u8)
-                  (ex (EMatch (ex (EEnumLit 3 1 [id 10 u8; ex (ENumS 4) i16]) tE)
+                  (ex (EMatch (ex (EEnumLit 3 1 [id 10 u8; ex (ENumS 4 16) i16]) tE)
                          [ (Pat (PEnumTup 3 1 [pid 15 u8; pid 16 i16]) m0 tE, id 15 u8);
                            (pid 17 tE, n8 0) ]) u8));
             st (SExpr (ex (EIf (ex (EFld (id 12 tS) 2) TBool)
                             (ex (ETupLit [id 14 u8; ex ETrue TBool]) tR)
-                            (ex (ETupLit [ex (EIdx (ex (ETupAcc (id 13 tT) 1) (TArr u8 2)) (ex (ENumU 1) usz)) u8;
+                            (ex (ETupLit [ex (EIdx (ex (ETupAcc (id 13 tT) 1) (TArr u8 2)) (ex (ENumU 1 8) usz)) u8;
                                           ex (ECast TBool (id 14 u8)) TBool]) tR)) tR)) ] ]
       [(7, n8 5)]
       9.
